@@ -3,8 +3,10 @@ package main
 import (
 	"fmt"
 	"go/ast"
+	"go/constant"
 	"go/token"
 	"go/types"
+	"math/big"
 	"strings"
 )
 
@@ -58,100 +60,129 @@ func (c *Ctx) pathLengthsTable() {
 			lObj = identObj(info, sum.X)
 		}
 	}
-	if lObj == nil {
+	var hcall *ast.CallExpr
+	if lObj == nil && ok && sum.Op == token.ADD {
+		other := sum.Y
+		if identObj(info, sum.Y) == curlength {
+			other = sum.X
+		}
+		if identObj(info, sum.X) == curlength || identObj(info, sum.Y) == curlength {
+			if cl, isCall := unparen(other).(*ast.CallExpr); isCall && inRepo(calleeOf(info, cl)) {
+				hcall = cl
+			}
+		}
+	}
+	if lObj == nil && hcall == nil {
 		c.Violation("TABLE", name+"/accumulate", rec.Pos(), "the walk does not pass on curlength + (value of the branch): got "+c.src(rec.Args[3])).Clause = clause
 		return
 	}
-	c.OK("TABLE", name+"/accumulate", rec.Pos(), "passes on curlength + "+lObj.Name())
-	// the enclosing block and the switch on metric
-	var sw *ast.SwitchStmt
-	var blk *ast.BlockStmt
-	st := stackTo(fi.Decl.Body, rec)
-	for _, s := range st {
-		if b, ok := s.(*ast.BlockStmt); ok {
-			for _, x := range b.List {
-				if w, ok := x.(*ast.SwitchStmt); ok && identObj(info, w.Tag) == metric {
-					sw, blk = w, b
-				}
+	c.OK("TABLE", name+"/accumulate", rec.Pos(), "passes on curlength + the branch's contribution")
+	// the program that computes the added value: the statements of the enclosing block before the
+	// recursive call (value in a local), or the body of the helper called in its place
+	var program []ast.Stmt
+	var progInfo = info
+	var metricObj types.Object = metric
+	var resultObj types.Object // local holding the value (nil: the program returns it)
+	eName := ""
+	edgeType := func(t types.Type) bool { return t != nil && strings.HasSuffix(t.String(), "tree.Edge") }
+	if lObj != nil {
+		resultObj = lObj
+		st := stackTo(fi.Decl.Body, rec)
+		var blk []ast.Stmt
+		for _, s := range st {
+			switch b := s.(type) {
+			case *ast.BlockStmt:
+				blk = b.List
+			case *ast.CaseClause:
+				blk = b.Body
 			}
 		}
-	}
-	if sw == nil {
-		c.Undecided("TABLE", name+"/metric-switch", fi.Decl.Pos(), "no switch on the metric in the block of the recursive call")
-		return
-	}
-	var pre []ast.Stmt
-	for _, s := range blk.List {
-		if s == ast.Stmt(sw) {
-			break
-		}
-		pre = append(pre, s)
-	}
-	// the branch variable: e := cur.br[i]
-	type want struct{ present, absent string }
-	expect := map[string]want{}
-	var eName string
-	for _, s := range pre {
-		if as, ok := s.(*ast.AssignStmt); ok && len(as.Lhs) == 1 {
-			if t := info.TypeOf(as.Lhs[0]); t != nil && strings.HasSuffix(t.String(), "tree.Edge") {
+		for _, s := range blk {
+			if nodeContains(s, rec.Pos()) {
+				break
+			}
+			program = append(program, s)
+			if as, ok := s.(*ast.AssignStmt); ok && len(as.Lhs) == 1 && edgeType(info.TypeOf(as.Lhs[0])) {
 				eName = identObj(info, as.Lhs[0]).Name()
 			}
 		}
+	} else if hcall != nil {
+		h := c.FuncOfObj(calleeOf(info, hcall))
+		if h == nil {
+			c.Undecided("TABLE", name+"/metric-table", rec.Pos(), "the helper computing the branch's contribution has no body in the repository")
+			return
+		}
+		progInfo = h.Pkg.TypesInfo
+		program = h.Decl.Body.List
+		metricObj = nil
+		for i, a := range hcall.Args {
+			p := paramObj(progInfo, h.Decl, i)
+			if p == nil {
+				continue
+			}
+			if identObj(info, a) == metric {
+				metricObj = p
+			}
+			if edgeType(p.Type()) {
+				eName = p.Name()
+			}
+		}
 	}
-	if eName == "" {
-		c.Undecided("TABLE", name+"/branch", fi.Decl.Pos(), "branch variable not found")
+	if eName == "" || metricObj == nil || len(program) == 0 {
+		c.Undecided("TABLE", name+"/metric-table", rec.Pos(), "cannot identify the branch, the metric and the statements computing the branch's contribution")
 		return
 	}
-	expect["DISTANCE_METRIC_BOOTS"] = want{eName + ".support", "1"}
-	expect["DISTANCE_METRIC_NONE"] = want{"1", "1"}
-	expect["default"] = want{eName + ".length", "0"}
-	seen := map[string]bool{}
-	for _, s := range sw.Body.List {
-		cc := s.(*ast.CaseClause)
-		label := "default"
-		if len(cc.List) == 1 {
-			if cn := constObj(info, cc.List[0]); cn != nil {
-				label = cn.Name()
+	cv := func(n string) *poly {
+		if o, ok := fi.Pkg.Types.Scope().Lookup(n).(*types.Const); ok {
+			if v, ok := constant.Int64Val(o.Val()); ok {
+				return pInt(v)
 			}
-		} else if len(cc.List) > 1 {
-			c.Undecided("TABLE", name+"/case", cc.Pos(), "multi-valued case not understood")
+		}
+		return nil
+	}
+	type want struct{ present, absent string }
+	cases := []struct {
+		label string
+		val   *poly
+		w     want
+	}{
+		{"DISTANCE_METRIC_BOOTS", cv("DISTANCE_METRIC_BOOTS"), want{eName + ".support", "1"}},
+		{"DISTANCE_METRIC_NONE", cv("DISTANCE_METRIC_NONE"), want{"1", "1"}},
+		{"DISTANCE_METRIC_BRLEN", cv("DISTANCE_METRIC_BRLEN"), want{eName + ".length", "0"}},
+		{"any-other-value", pInt(977), want{eName + ".length", "0"}},
+	}
+	for _, cs := range cases {
+		if cs.val == nil {
+			c.Undecided("TABLE", name+"/"+cs.label, rec.Pos(), "metric constant not found")
 			continue
 		}
-		w, known := expect[label]
-		if !known {
-			c.Undecided("TABLE", name+"/"+label, cc.Pos(), "metric "+label+" has no stated meaning in the property")
-			continue
-		}
-		seen[label] = true
 		for _, regime := range []string{"present", "absent"} {
 			rank := map[string]int{eName + ".support": 1, "NIL_SUPPORT": 0, eName + ".length": 3, "NIL_LENGTH": 2, eName + ".pvalue": 5, "NIL_PVALUE": 4}
 			if regime == "absent" {
 				rank[eName+".support"] = 0
 				rank[eName+".length"] = 2
 			}
-			x := c.newSymExec(info, fi.Decl.Body, rank)
-			body := append(append([]ast.Stmt{}, pre...), cc.Body...)
-			_, err := x.run(body)
-			key := name + "/" + label + "/" + regime
+			x := c.newSymExec(progInfo, nil, rank)
+			x.env.vals[metricObj] = cs.val
+			ret, err := x.run(program)
+			key := name + "/" + cs.label + "/" + regime
 			if err != nil {
-				c.Undecided("TABLE", key, cc.Pos(), "symbolic execution stopped: "+err.Error())
+				c.Undecided("TABLE", key, rec.Pos(), "symbolic execution stopped: "+err.Error())
 				continue
 			}
-			got := x.env.vals[lObj]
-			exp := w.present
+			got := ret
+			if resultObj != nil {
+				got = x.env.vals[resultObj]
+			}
+			exp := cs.w.present
 			if regime == "absent" {
-				exp = w.absent
+				exp = cs.w.absent
 			}
 			gs := "<unset>"
 			if got != nil {
 				gs = got.String()
 			}
-			c.Check(gs == exp, "TABLE", key, cc.Pos(), "adds "+gs, fmt.Sprintf("under metric %s a branch whose value is %s contributes %s to the path, the property requires %s", label, regime, gs, exp)).Clause = clause
-		}
-	}
-	for l := range expect {
-		if !seen[l] {
-			c.Violation("TABLE", name+"/"+l, sw.Pos(), "the metric switch has no "+l+" case").Clause = clause
+			c.Check(gs == exp, "TABLE", key, rec.Pos(), "adds "+gs, fmt.Sprintf("under metric %s a branch whose value is %s contributes %s to the path, the property requires %s", cs.label, regime, gs, exp)).Clause = clause
 		}
 	}
 	// record: lengths[cur.Id()] = curlength iff cur.Tip() && prev != nil
@@ -193,7 +224,7 @@ func (c *Ctx) pathLengthsTable() {
 		}
 	}
 	var rs *ast.RangeStmt
-	for _, s := range st {
+	for _, s := range stackTo(fi.Decl.Body, rec) {
 		if r, ok := s.(*ast.RangeStmt); ok {
 			rs = r
 		}
@@ -267,35 +298,33 @@ func (c *Ctx) distanceMatrixOrder() {
 	}
 	c.Check(okLess, "ORDER", name+"/sort-by-name", sortCall.Pos(), "tips sorted by ascending name", "the tips are not sorted by ascending name (less = "+c.src(sortCall.Args[1])+")").Clause = clause
 	c.Check(sortCall.Pos() < setId.Pos() && sortCall.Pos() < plCall.Pos(), "ORDER", name+"/sort-then-number", sortCall.Pos(), "sorted before ids are assigned and before the walks", "tips are numbered or walked before they are sorted by name: row order and indexes disagree").Clause = clause
-	// SetId(i) on tips[i] in a range over tips
-	okId := false
-	for _, s := range stackTo(fi.Decl.Body, setId) {
-		if rs, ok := s.(*ast.RangeStmt); ok && identObj(info, rs.X) == tips && rs.Key != nil {
-			k := identObj(info, rs.Key)
-			if sel, ok := unparen(setId.Fun).(*ast.SelectorExpr); ok {
-				o := &canonOpts{subst: map[types.Object]string{k: "$i"}}
-				if c.canon(info, sel.X, o) == tips.Name()+"[$i]" && identObj(info, setId.Args[0]) == k {
-					okId = true
+	// element key: a range value over tips stands for tips[key]
+	elemKey := func(e ast.Expr, at ast.Node) string {
+		if o := identObj(info, e); o != nil {
+			for _, s := range stackTo(fi.Decl.Body, at) {
+				if rs, ok := s.(*ast.RangeStmt); ok && identObj(info, rs.X) == tips && rs.Value != nil && rs.Key != nil && identObj(info, rs.Value) == o {
+					return tips.Name() + "[" + c.canon(info, rs.Key, nil) + "]"
 				}
 			}
 		}
+		return c.canon(info, e, nil)
+	}
+	// tip at rank i gets id i
+	okId := false
+	if sel, ok := unparen(setId.Fun).(*ast.SelectorExpr); ok && len(setId.Args) == 1 {
+		okId = elemKey(sel.X, setId) == tips.Name()+"["+c.canon(info, setId.Args[0], nil)+"]"
 	}
 	c.Check(okId, "ORDER", name+"/id=rank", setId.Pos(), "tip at rank i gets id i", "tip ids are not the ranks in name order").Clause = clause
 	// pathLengths(tips[i], nil, matrix[i], 0, metric)
 	okWalk := false
-	for _, s := range stackTo(fi.Decl.Body, plCall) {
-		if rs, ok := s.(*ast.RangeStmt); ok && identObj(info, rs.X) == tips && rs.Key != nil && len(plCall.Args) == 5 {
-			k := identObj(info, rs.Key)
-			start := identObj(info, plCall.Args[0])
-			row, isIx := unparen(plCall.Args[2]).(*ast.IndexExpr)
-			zero := false
-			if tv, ok := info.Types[plCall.Args[3]]; ok && tv.Value != nil && tv.Value.String() == "0" {
-				zero = true
-			}
-			startOK := rs.Value != nil && start == identObj(info, rs.Value)
-			if isIx && identObj(info, row.Index) == k && startOK && zero && isNilIdent(info, plCall.Args[1]) && identObj(info, plCall.Args[4]) == paramObj(info, fi.Decl, 0) {
-				okWalk = true
-			}
+	if len(plCall.Args) == 5 {
+		row, isIx := unparen(plCall.Args[2]).(*ast.IndexExpr)
+		zero := false
+		if tv, ok := info.Types[plCall.Args[3]]; ok && tv.Value != nil && tv.Value.String() == "0" {
+			zero = true
+		}
+		if isIx && zero && isNilIdent(info, plCall.Args[1]) && identObj(info, plCall.Args[4]) == paramObj(info, fi.Decl, 0) {
+			okWalk = elemKey(plCall.Args[0], plCall) == tips.Name()+"["+c.canon(info, row.Index, nil)+"]"
 		}
 	}
 	c.Check(okWalk, "ORDER", name+"/row-i-from-tip-i", plCall.Pos(), "row i is filled by the walk from tip i, starting at 0 with the requested metric", "row i is not filled by a walk from tip i starting at distance 0 with the requested metric: "+c.src(plCall)).Clause = clause
@@ -339,10 +368,12 @@ func (c *Ctx) avgMatrix() {
 		c.Undecided("LF", name, fi.Decl.Pos(), "result matrix / loop over the trees not found")
 		return
 	}
-	// stores into matrix[a][b]
+	// stores into matrix[a][b]: one accumulation (+= m2[a][b], or = itself + m2[a][b]) and one division
+	env := c.newLFEnv(info, fi.Decl.Body)
 	type mst struct {
 		as   *ast.AssignStmt
 		a, b string
+		rhs  *poly
 	}
 	var adds, divs []mst
 	var counter types.Object
@@ -359,62 +390,77 @@ func (c *Ctx) avgMatrix() {
 		if !ok || identObj(info, o1.X) != matrix {
 			return true
 		}
-		m := mst{as, c.canon(info, o1.Index, nil), c.canon(info, o2.Index, nil)}
-		switch as.Tok {
-		case token.ADD_ASSIGN:
+		m := mst{as: as, a: c.canon(info, o1.Index, nil), b: c.canon(info, o2.Index, nil)}
+		self := c.canon(info, as.Lhs[0], nil)
+		if _, d, ok := c.incrementDelta(env, as); ok {
+			m.rhs = d
 			adds = append(adds, m)
-		case token.QUO_ASSIGN:
-			divs = append(divs, m)
-		default:
-			c.Violation("LF", name+"/entry-store", as.Pos(), "result entry written with "+as.Tok.String()+": not an accumulation or the final division").Clause = clause
+			return true
 		}
+		// division: x /= r ; x = x / r
+		var r ast.Expr
+		switch as.Tok {
+		case token.QUO_ASSIGN:
+			r = as.Rhs[0]
+		case token.ASSIGN:
+			if be, ok := unparen(as.Rhs[0]).(*ast.BinaryExpr); ok && be.Op == token.QUO && c.canon(info, be.X, nil) == self {
+				r = be.Y
+			}
+		}
+		if r != nil {
+			if p, err := env.fold(r); err == nil {
+				m.rhs = p
+				divs = append(divs, m)
+				return true
+			}
+		}
+		c.Violation("LF", name+"/entry-store", as.Pos(), "result entry written by `"+c.src(as.Lhs[0])+" "+as.Tok.String()+" "+c.src(as.Rhs[0])+"`: neither an accumulation nor the final division").Clause = clause
 		return true
 	})
 	if len(adds) != 1 || len(divs) != 1 {
 		c.Violation("LF", name+"/mean", fi.Decl.Pos(), fmt.Sprintf("expected one accumulation and one division of the entries, found %d and %d", len(adds), len(divs))).Clause = clause
 		return
 	}
-	// accumulation: matrix[i][j] += other[i][j], inside the loop over trees
-	r2, ok2 := unparen(adds[0].as.Rhs[0]).(*ast.IndexExpr)
+	// accumulation: the delta is entry (i,j) of the current tree's matrix
 	okAdd := false
-	if ok2 {
-		if r1, ok := unparen(r2.X).(*ast.IndexExpr); ok {
-			src := identObj(info, r1.X)
-			okAdd = src != nil && src != matrix && c.canon(info, r1.Index, nil) == adds[0].a && c.canon(info, r2.Index, nil) == adds[0].b && nodeContains(chanLoop.Body, adds[0].as.Pos())
-			// the source is the matrix of the current tree
-			if okAdd {
-				fromTree := false
-				ast.Inspect(chanLoop.Body, func(n ast.Node) bool {
-					if as, ok := n.(*ast.AssignStmt); ok && len(as.Lhs) >= 1 && identObj(info, as.Lhs[0]) == src && len(as.Rhs) == 1 {
+	if at, q, ok := adds[0].rhs.singleAtom(); ok && q.Cmp(big.NewRat(1, 1)) == 0 && strings.HasSuffix(at, "["+adds[0].a+"]["+adds[0].b+"]") && nodeContains(chanLoop.Body, adds[0].as.Pos()) {
+		srcName := strings.TrimSuffix(at, "["+adds[0].a+"]["+adds[0].b+"]")
+		if srcName != matrix.Name() {
+			ast.Inspect(chanLoop.Body, func(n ast.Node) bool {
+				if as, ok := n.(*ast.AssignStmt); ok && len(as.Lhs) >= 1 && len(as.Rhs) == 1 {
+					if lo := identObj(info, as.Lhs[0]); lo != nil && lo.Name() == srcName {
 						if cl, ok := unparen(as.Rhs[0]).(*ast.CallExpr); ok && isRepoFunc(calleeOf(info, cl), "tree", "Tree", "ToDistanceMatrix") {
-							fromTree = true
+							okAdd = true
 						}
 					}
-					return true
-				})
-				okAdd = fromTree
-			}
+				}
+				return true
+			})
 		}
 	}
-	c.Check(okAdd, "LF", name+"/accumulate", adds[0].as.Pos(), "entry (i,j) += entry (i,j) of the current tree's matrix", "the accumulation "+c.src(adds[0].as.Lhs[0])+" += "+c.src(adds[0].as.Rhs[0])+" does not add entry (i,j) of the current tree's matrix to entry (i,j)").Clause = clause
-	// division by float64(counter), after the loop
+	c.Check(okAdd, "LF", name+"/accumulate", adds[0].as.Pos(), "entry (i,j) += entry (i,j) of the current tree's matrix", "the accumulation `"+c.src(adds[0].as.Lhs[0])+" "+adds[0].as.Tok.String()+" "+c.src(adds[0].as.Rhs[0])+"` does not add entry (i,j) of the current tree's matrix to entry (i,j)").Clause = clause
+	// division by the tree count, after the loop
 	okDiv := false
-	if cv, ok := unparen(divs[0].as.Rhs[0]).(*ast.CallExpr); ok && len(cv.Args) == 1 {
-		counter = identObj(info, cv.Args[0])
-	} else {
-		counter = identObj(info, divs[0].as.Rhs[0])
+	if at, q, ok := divs[0].rhs.singleAtom(); ok && q.Cmp(big.NewRat(1, 1)) == 0 && divs[0].as.Pos() > chanLoop.End() {
+		ast.Inspect(fi.Decl.Body, func(n ast.Node) bool {
+			if id, ok := n.(*ast.Ident); ok && id.Name == at {
+				if o := identObj(info, id); o != nil && isInteger(o.Type()) {
+					counter = o
+				}
+			}
+			return true
+		})
+		okDiv = counter != nil
 	}
-	okDiv = counter != nil && divs[0].as.Pos() > chanLoop.End()
-	c.Check(okDiv, "LF", name+"/divide", divs[0].as.Pos(), "every entry divided by the tree count after the loop", "the final division is not `entry /= number of trees` after all trees were read").Clause = clause
+	c.Check(okDiv, "LF", name+"/divide", divs[0].as.Pos(), "every entry divided by the tree count after the loop", "the final division is not `entry / number of trees` after all trees were read").Clause = clause
 	if counter != nil {
-		// counter++ exactly once per tree: a top-level statement of the loop body
-		n := 0
+		// counter + 1 exactly once per tree: a top-level statement of the loop body
+		n, other := 0, 0
 		for _, s := range chanLoop.Body.List {
-			if inc, ok := s.(*ast.IncDecStmt); ok && inc.Tok == token.INC && identObj(info, inc.X) == counter {
+			if t, d, ok := c.incrementDelta(env, s); ok && t == counter.Name() && d.String() == "1" {
 				n++
 			}
 		}
-		other := 0
 		ast.Inspect(fi.Decl.Body, func(m ast.Node) bool {
 			switch s := m.(type) {
 			case *ast.IncDecStmt:
@@ -424,7 +470,7 @@ func (c *Ctx) avgMatrix() {
 			case *ast.AssignStmt:
 				for _, l := range s.Lhs {
 					if identObj(info, l) == counter {
-						other += 2
+						other++
 					}
 				}
 			}
@@ -474,60 +520,97 @@ func (c *Ctx) cutEdges() {
 	r1, p1 := rel(top, paramObj(info, top.Decl, 0))
 	r2, _ := rel(rec, paramObj(info, rec.Decl, 3))
 	c.Check(r1 == "<" && r2 == "<", "SIBLING", "tree.Tree.CutEdgesMaxLength/threshold-relation", p1, "both sites cross a branch iff Length() < threshold", fmt.Sprintf("the two flood-fill sites compare Length() with the threshold using %q and %q; both must be `<` (a branch equal to the threshold is cut at both sites, or groups depend on where the fill starts)", r1, r2)).Clause = clause
-	// kept branch: explored from both ends; removed branch: singleton bag for each tip end
-	var loopIf *ast.IfStmt
-	ast.Inspect(top.Decl.Body, func(n ast.Node) bool {
-		if is, ok := n.(*ast.IfStmt); ok && is.Else != nil && strings.Contains(c.canon(info, is.Cond, nil), ".length") {
-			loopIf = is
-		}
-		return true
-	})
-	if loopIf == nil {
-		c.Undecided("SYM", "tree.Tree.CutEdgesMaxLength/both-ends", top.Decl.Pos(), "if/else on the branch length not found")
-		return
-	}
+	// kept branch: explored from both ends; removed branch: singleton group for each end that is a tip.
+	// The two regions are told apart by the path condition on the branch length, whatever the shape
+	// of the if/else.
+	maxlen := paramObj(info, top.Decl, 0)
 	var eObj types.Object
-	for _, s := range stackTo(top.Decl.Body, loopIf) {
-		if rs, ok := s.(*ast.RangeStmt); ok && rs.Value != nil {
-			eObj = identObj(info, rs.Value)
-		}
-	}
-	o := &canonOpts{subst: map[types.Object]string{}}
-	if eObj != nil {
-		o.subst[eObj] = "$E"
-	}
-	dirs := map[string]bool{}
-	for _, call := range callsIn(loopIf.Body, false) {
-		if calleeOf(info, call) == rec.Obj && len(call.Args) == 5 {
-			dirs[c.canon(info, call.Args[1], o)+">"+c.canon(info, call.Args[2], o)] = true
-		}
-	}
-	c.Check(dirs["$E.left>$E.right"] && dirs["$E.right>$E.left"] && len(dirs) == 2, "SYM", "tree.Tree.CutEdgesMaxLength/kept-both-directions", loopIf.Pos(), "a kept branch is explored from both of its ends", fmt.Sprintf("a kept branch is not explored from both ends (directions %v): tips on one side are missing from the group", sortedKeys(dirs))).Clause = clause
-	ends := map[string]bool{}
-	ast.Inspect(loopIf.Else, func(n ast.Node) bool {
-		is, ok := n.(*ast.IfStmt)
-		if !ok {
-			return true
-		}
-		k := c.inlineTip(c.toBexpr(info, is.Cond, o)).String()
-		for _, end := range []string{"left", "right"} {
-			if k == "len($E."+end+".neigh) == 1" {
-				// AddTip($E.end) and the bag appended
-				add, app := false, false
-				for _, call := range callsIn(is.Body, false) {
-					if fn := calleeOf(info, call); fn != nil && fn.Name() == "AddTip" && len(call.Args) == 1 && c.canon(info, call.Args[0], o) == "$E."+end {
-						add = true
-					}
-					if id, ok := call.Fun.(*ast.Ident); ok && id.Name == "append" {
-						app = true
-					}
-				}
-				if add && app {
-					ends[end] = true
+	var loop *ast.RangeStmt
+	ast.Inspect(top.Decl.Body, func(n ast.Node) bool {
+		if rs, ok := n.(*ast.RangeStmt); ok && rs.Value != nil {
+			for _, call := range callsIn(rs.Body, false) {
+				if calleeOf(info, call) == rec.Obj {
+					loop = rs
+					eObj = identObj(info, rs.Value)
 				}
 			}
 		}
 		return true
 	})
-	c.Check(ends["left"] && ends["right"], "SYM", "tree.Tree.CutEdgesMaxLength/removed-both-ends", loopIf.Else.Pos(), "a removed branch yields a singleton group for each end that is a tip", fmt.Sprintf("a removed branch only yields a singleton group for its %v end: a tip at the other end (a tree rooted on a tip) belongs to no group", sortedKeys(ends))).Clause = clause
+	if loop == nil || eObj == nil {
+		c.Undecided("SYM", "tree.Tree.CutEdgesMaxLength/both-ends", top.Decl.Pos(), "loop over the branches starting the flood fills not found")
+		return
+	}
+	o := &canonOpts{subst: map[types.Object]string{eObj: "$E", maxlen: "$MAX"}}
+	for k, v := range c.localExpansionsWith(info, top.Decl.Body, o).subst {
+		o.subst[k] = v
+	}
+	lenConds := func(at ast.Node) *bexpr {
+		conds, okc := c.pathConds(info, top.Decl.Body, at, true)
+		if !okc {
+			return nil
+		}
+		var rel []cond
+		for _, cd := range conds {
+			if cd.Expr != nil && strings.Contains(c.canon(info, cd.Expr, o), "$E.length") {
+				rel = append(rel, cd)
+			}
+		}
+		return c.condsToBexpr(info, rel, o)
+	}
+	keptSpec := bCmp("$E.length", token.LSS, "$MAX")
+	dirs := map[string]bool{}
+	okKept := true
+	for _, call := range callsIn(loop.Body, false) {
+		if calleeOf(info, call) != rec.Obj || len(call.Args) != 5 {
+			continue
+		}
+		code := lenConds(call)
+		if code == nil {
+			okKept = false
+			continue
+		}
+		if eq, _, _, err := gfEquiv(code, keptSpec); err != nil || !eq {
+			okKept = false
+		}
+		dirs[c.canon(info, call.Args[1], o)+">"+c.canon(info, call.Args[2], o)] = true
+	}
+	c.Check(okKept && dirs["$E.left>$E.right"] && dirs["$E.right>$E.left"] && len(dirs) == 2, "SYM", "tree.Tree.CutEdgesMaxLength/kept-both-directions", loop.Pos(), "a branch shorter than the threshold is explored from both of its ends", fmt.Sprintf("a kept branch (length < threshold) is not explored from both ends (directions %v): tips on one side are missing from the group", sortedKeys(dirs))).Clause = clause
+	ends := map[string]bool{}
+	okRemoved := true
+	for _, call := range callsIn(loop.Body, false) {
+		fn := calleeOf(info, call)
+		if fn == nil || fn.Name() != "AddTip" || len(call.Args) != 1 {
+			continue
+		}
+		end := ""
+		switch c.canon(info, call.Args[0], o) {
+		case "$E.left":
+			end = "left"
+		case "$E.right":
+			end = "right"
+		default:
+			continue
+		}
+		code := lenConds(call)
+		if code == nil {
+			okRemoved = false
+			continue
+		}
+		if eq, _, _, err := gfEquiv(code, bNot(keptSpec)); err != nil || !eq {
+			okRemoved = false
+		}
+		// under the tip test of that very end
+		conds, _ := c.pathConds(info, top.Decl.Body, call, true)
+		tipOK := false
+		for _, cd := range conds {
+			if cd.Expr != nil && !cd.Neg && c.inlineTip(c.toBexpr(info, cd.Expr, o)).String() == "len($E."+end+".neigh) == 1" {
+				tipOK = true
+			}
+		}
+		if tipOK {
+			ends[end] = true
+		}
+	}
+	c.Check(okRemoved && ends["left"] && ends["right"], "SYM", "tree.Tree.CutEdgesMaxLength/removed-both-ends", loop.Pos(), "a removed branch yields a singleton group for each end that is a tip", fmt.Sprintf("a removed branch (length >= threshold) only yields a singleton group for its %v end: a tip at the other end (a tree rooted on a tip) belongs to no group", sortedKeys(ends))).Clause = clause
 }
